@@ -51,12 +51,20 @@ pub fn small_order_point<G: CurveTag>() -> Option<G> {
 
 fn case<G: CurveTag>(bytes: &[u8], col: &mut Collector) -> Result<(), Failure> {
     let mut ch = Choices::new(bytes);
-    let base_kind = ch.weighted(&[36, 27, 9, 9, 9, 10]);
+    let base_kind = ch.weighted(&[33, 24, 8, 8, 8, 9, 10]);
     let def = pc_gens::<G>();
     // bases that are not in the prime-order subgroup (cofactor curves): "any pair of bases"
     let torsion: Option<G> = small_order_point::<G>();
     let base_kind = if base_kind == 5 && torsion.is_none() { 1 } else { base_kind };
+    // dependent bases B_blinding = k·B: with v = ±k·r the two products are equal / opposite
+    // points, the exceptional cases of the final addition
+    let dep_k: i64 = [2i64, 3, -1, -2, 5, 1][ch.below(6)];
     let pc: PedersenGens<G> = match base_kind {
+        6 => {
+            let p = if ch.chance(128) { def.B } else { rand_point::<G>(ch.u16() as u64) };
+            let kf = if dep_k < 0 { -G::ScalarField::from((-dep_k) as u64) } else { G::ScalarField::from(dep_k as u64) };
+            PedersenGens { B: p, B_blinding: ref_mul(&p, &kf).into_affine() }
+        }
         5 => {
             let t = torsion.unwrap();
             let k = 1 + ch.below(7) as u64;
@@ -82,11 +90,26 @@ fn case<G: CurveTag>(bytes: &[u8], col: &mut Collector) -> Result<(), Failure> {
     let v2s = ScalarSpec::gen(&mut ch);
     let r2s = ScalarSpec::gen(&mut ch);
     let cs = ScalarSpec::gen(&mut ch);
-    let (v1, r1, v2, r2, c): (G::ScalarField, G::ScalarField, G::ScalarField, G::ScalarField, G::ScalarField) =
+    let (mut v1, r1, v2, r2, c): (G::ScalarField, G::ScalarField, G::ScalarField, G::ScalarField, G::ScalarField) =
         (v1s.to_f(), r1s.to_f(), v2s.to_f(), r2s.to_f(), cs.to_f());
-    let bname = ["default", "random pair", "B = B_blinding", "swapped", "B_blinding = identity", "a base with a small-order component"][base_kind];
+    let mut matched = "";
+    if base_kind == 6 {
+        let kf = if dep_k < 0 { -G::ScalarField::from((-dep_k) as u64) } else { G::ScalarField::from(dep_k as u64) };
+        match ch.below(3) {
+            0 => {
+                v1 = kf * r1;
+                matched = "v = k*r (equal products)";
+            }
+            1 => {
+                v1 = -(kf * r1);
+                matched = "v = -k*r (opposite products)";
+            }
+            _ => {}
+        }
+    }
+    let bname = ["default", "random pair", "B = B_blinding", "swapped", "B_blinding = identity", "a base with a small-order component", "B_blinding = k*B"][base_kind];
     let what = || json!({"curve": G::CURVE.name(), "bases": bname,
-        "v1": v1s.short(), "r1": r1s.short(), "v2": v2s.short(), "r2": r2s.short(), "c": cs.short(), "v1_hex": f_hex(&v1), "r1_hex": f_hex(&r1)});
+        "matched_opening": matched, "k": dep_k, "v1": v1s.short(), "r1": r1s.short(), "v2": v2s.short(), "r2": r2s.short(), "c": cs.short(), "v1_hex": f_hex(&v1), "r1_hex": f_hex(&r1)});
     let commit = |v: G::ScalarField, r: G::ScalarField| -> Result<G, Failure> {
         guarded(|| pc.commit(v, r)).map_err(|p| Failure::new("C13:panic", format!("PedersenGens::commit panicked: {}", p), what()))
     };
@@ -188,7 +211,10 @@ fn case<G: CurveTag>(bytes: &[u8], col: &mut Collector) -> Result<(), Failure> {
         let carry = a.add_with_carry(&v2.into_bigint());
         carry || a >= <G::ScalarField as PrimeField>::MODULUS
     };
-    col.class(["bases:default", "bases:random", "bases:equal", "bases:swapped", "bases:identity-blinding", "bases:small-order-component"][base_kind]);
+    col.class(["bases:default", "bases:random", "bases:equal", "bases:swapped", "bases:identity-blinding", "bases:small-order-component", "bases:dependent"][base_kind]);
+    if !matched.is_empty() {
+        col.class("dependent-bases:matched-opening");
+    }
     if wrap {
         col.class("wrap-around");
     }
